@@ -12,9 +12,22 @@ mkdir -p /verif/.work
 [ -f "$src/patch.diff" ] || { echo "no patch for $id" | tee -a "$out"; exit 2; }
 git -C /repo worktree remove --force "$wt" >/dev/null 2>&1
 git -C /repo worktree add --detach "$wt" HEAD >/dev/null 2>&1 || { echo "worktree failed" | tee -a "$out"; exit 2; }
-# place the demonstration files at the same relative paths as in the agent's worktree
-demos=$(cd "$awt" && git status --porcelain --untracked-files=all | awk '{print $2}' | grep -i 'seeded_demo\|seeded' )
-for f in $demos; do mkdir -p "$wt/$(dirname $f)"; cp "$awt/$f" "$wt/$f"; done
+# place the demonstration files: path named in the head of each file (agents' convention), else same relative path
+# as in the agent's worktree
+demos=""
+for f in "$src"/demo/*.go; do
+  [ -f "$f" ] || continue
+  rel=$(head -8 "$f" | grep -o '\(pkg\|cmd\)/[A-Za-z0-9_/.-]*\.go' | head -1)
+  if [ -z "$rel" ]; then
+    rel=$(cd "$awt" && git status --porcelain --untracked-files=all | awk '{print $2}' | grep "$(basename $f)" | head -1)
+  fi
+  if [ -z "$rel" ]; then
+    pk=$(python3 -c "import json,re;m=json.load(open('$src/meta.json'));r=re.search(r'\./(pkg|cmd)/[A-Za-z0-9_/.-]*',m.get('demo_cmd',''));print(r.group(0)[2:].rstrip('/') if r else '')")
+    [ -n "$pk" ] && rel="$pk/$(basename $f)"
+  fi
+  [ -z "$rel" ] && { echo "cannot place $f" >> "$out"; continue; }
+  mkdir -p "$wt/$(dirname $rel)"; cp "$f" "$wt/$rel"; demos="$demos $rel"
+done
 pkgs=$(for f in $demos; do echo "./$(dirname $f)/"; done | sort -u | tr '\n' ' ')
 echo "demo files: $demos ; packages: $pkgs" >> "$out"
 res() { echo "$1" | tee -a "$out"; }
@@ -25,8 +38,22 @@ git -C "$wt" apply "$src/patch.diff" >> "$out" 2>&1 && res "patch_applies=yes" |
 ( cd "$wt" && go build ./... && go build -tags verif ./... ) >> "$out" 2>&1 && res "builds=yes" || res "builds=NO"
 # 3. demo fails with the change
 ( cd "$wt" && timeout 600 go test -count=1 -run 'Seeded|Demo' $pkgs ) >> "$out" 2>&1 && res "demo_with_change=PASS(bad)" || res "demo_with_change=FAIL(good)"
-# 4. existing tests pass with the change (demo excluded)
-( cd "$wt" && timeout 1500 go test -count=1 -skip 'Seeded|TestWebAgentConnector' ./pkg/... ) > "$out.tests" 2>&1 && res "existing_tests=PASS" || { res "existing_tests=FAIL"; grep -v '^ok\|no test files' "$out.tests" | tail -15 >> "$out"; }
+# 4. existing tests pass with the change (demo excluded); packages that fail are retried alone (load-flaky network tests)
+if ( cd "$wt" && timeout 1500 go test -count=1 -skip 'Seeded|TestWebAgentConnector' ./pkg/... ) > "$out.tests" 2>&1; then
+  res "existing_tests=PASS"
+else
+  failed=$(grep '^FAIL\s' "$out.tests" | awk '{print $2}' | sort -u)
+  allok=yes
+  for fp in $failed; do
+    ok=no
+    for try in 1 2 3; do
+      if ( cd "$wt" && timeout 900 go test -count=1 -skip 'Seeded|TestWebAgentConnector' "$fp" ) > "$out.tests.retry" 2>&1; then ok=yes; break; fi
+    done
+    echo "retry $fp: $ok" >> "$out"
+    [ "$ok" = yes ] || { allok=no; grep -E '^\s*--- FAIL|^FAIL|_test.go' "$out.tests.retry" | head -8 >> "$out"; }
+  done
+  [ "$allok" = yes ] && res "existing_tests=PASS(after-retry-of:$(echo $failed | tr ' ' ','))" || res "existing_tests=FAIL"
+fi
 # 5. the property's check against the changed tree (demo files removed so that only the change counts)
 for f in $demos; do rm -f "$wt/$f"; done
 chk=$(cd /verif && VERIF_REPO="$wt" timeout 3400 ./check "$prop" "$tier" 2>&1)
